@@ -38,13 +38,41 @@ func genDurParse(r *rand.Rand, n int, emit func(args ...string)) {
 		e("007" + u.s)
 		e("9223372036854775808" + u.s)
 		e("99999999999999999999999" + u.s)
+		// digit runs around and beyond 2^64 (a hand-rolled digit accumulator would wrap here)
+		two64 := new(big.Int).Lsh(big.NewInt(1), 64)
+		for _, k := range []int64{1, 2, 3, 10} {
+			base := new(big.Int).Mul(two64, big.NewInt(k))
+			for _, x := range []int64{-1, 0, 1, 2, 7, 1000, 1 << 40} {
+				e(new(big.Int).Add(base, big.NewInt(x)).String() + u.s)
+			}
+		}
+		e(new(big.Int).Add(two64, new(big.Int).Lsh(big.NewInt(1), 63)).String() + u.s)
+		e(new(big.Int).Add(new(big.Int).Lsh(big.NewInt(1), 128), big.NewInt(1)).String() + u.s)
 	}
 	for _, s := range []string{"", "-", "1", "s", "ms", "1n", "1mss", "µ", "1µ", "-1µs", "1x", "1 s", "--1s", "1s-", "1s1", "1.5s", "1S", "1ms1m1s", "1m1ms", "1w1d1h1m1s1ms1u1ns", "0s", "-0s", "00", "1h\x00", "٣s", "1msms", "1nsns", "1nss", "1mns"} {
 		e(s)
 	}
 	alphabet := []rune("0123456789nsuµmhdw-x. ")
 	for i := 0; i < n; i++ {
-		switch r.Intn(10) {
+		switch r.Intn(11) {
+		case 10: // digit runs of 19-26 digits: far beyond int64, where wrap-around arithmetic comes back positive
+			var b strings.Builder
+			if r.Intn(4) == 0 {
+				b.WriteByte('-')
+			}
+			k := 1 + r.Intn(2)
+			for j := 0; j < k; j++ {
+				nd := 19 + r.Intn(8)
+				if j > 0 {
+					nd = 1 + r.Intn(4)
+				}
+				b.WriteByte(byte('1' + r.Intn(9)))
+				for q := 1; q < nd; q++ {
+					b.WriteByte(byte('0' + r.Intn(10)))
+				}
+				b.WriteString(durUnits[r.Intn(len(durUnits))].s)
+			}
+			e(b.String())
 		case 0, 1: // soup
 			k := r.Intn(8)
 			rs := make([]rune, k)
